@@ -134,7 +134,7 @@ package providers
 // ---- C16: request coalescing (authenticator side) ------------------------------------------------------------
 //@ func (p *SingleFlightProvider) do(endpoint string, key string, fn func() (interface{}, error)) (interface{}, error)
 //@   modifies everything
-//@   ensures [C16] keyed_by_endpoint_and_subject: called(@Do#1) && arg(@Do#1, 0) == old(p.single) && arg(@Do#1, 1) == endpoint + "/" + key && arg(@Do#1, 2) == fn && result.0 == @Do#1.0 && result.1 == @Do#1.2
+//@   ensures [C16 C09 C19 C10] keyed_by_endpoint_and_subject: called(@Do#1) && arg(@Do#1, 0) == old(p.single) && arg(@Do#1, 1) == endpoint + "/" + key && arg(@Do#1, 2) == fn && result.0 == @Do#1.0 && result.1 == @Do#1.2
 //@   let G = old(p.single)
 //@   ensures [C16] executed_at_most_once_here: G.$runs == old(G.$runs) || G.$runs == old(G.$runs) + 1
 
